@@ -227,3 +227,80 @@ Proof.
   unfold quote at 1. rewrite lex_step, lex_one_space by reflexivity.
   fold (quote p t). rewrite lex_quoted. reflexivity.
 Qed.
+
+(* ---------------------------------------------------------------------------------------------- *)
+(* strconv.Unquote of valid code points yields valid code points (lib/Quote.v) *)
+
+Lemma valid_small v : v < 128 -> valid_cp v = true.
+Proof. unfold valid_cp. intros H. lia. Qed.
+
+Lemma read_hex_suffix n : forall v s v' t, read_hex n v s = Some (v', t) -> exists pre, s = pre ++ t.
+Proof.
+  induction n as [|n IH]; intros v s v' t H; cbn [read_hex] in H.
+  - inversion H; subst. exists []. reflexivity.
+  - destruct s as [|c s']; [discriminate|]. destruct (unhex c); [|discriminate].
+    destruct (IH _ _ _ _ H) as [pre ->]. exists (c :: pre). reflexivity.
+Qed.
+
+Lemma valid_suffix pre t : valid_codepoints (pre ++ t) -> valid_codepoints t.
+Proof. unfold valid_codepoints. intros H. apply Forall_app in H. tauto. Qed.
+
+Lemma unquote_char_valid s v mb t : valid_codepoints s -> unquote_char s = UC v mb t ->
+  valid_codepoints t /\ ((v <? 128) || mb = true -> valid_cp v = true).
+Proof.
+  intros Hs H. unfold unquote_char in H. destruct s as [|c s1]; [discriminate|].
+  inversion Hs as [|? ? Hc Hs1]; subst.
+  destruct (c =? 34); [discriminate|].
+  destruct (128 <=? c); [inversion H; subst; auto|].
+  destruct (negb (c =? 92)); [inversion H; subst; auto|].
+  destruct s1 as [|e s2]; [discriminate|]. inversion Hs1 as [|? ? He Hs2]; subst.
+  repeat match type of H with
+  | (if ?b then UC ?x false s2 else _) = _ =>
+      destruct b; [inversion H; subst; split; [exact Hs2|intros _; reflexivity]|]
+  end.
+  destruct (e =? 120).
+  { destruct (read_hex 2 0 s2) as [[v' t']|] eqn:E; [|discriminate]. inversion H; subst.
+    destruct (read_hex_suffix _ _ _ _ _ E) as [pre ->]. split; [eapply valid_suffix; exact Hs2|].
+    intros Hv. rewrite orb_false_r in Hv. apply valid_small. lia. }
+  destruct (e =? 117).
+  { destruct (read_hex 4 0 s2) as [[v' t']|] eqn:E; [|discriminate].
+    destruct (valid_cp v') eqn:Ev; [|discriminate]. inversion H; subst.
+    destruct (read_hex_suffix _ _ _ _ _ E) as [pre ->]. split; [eapply valid_suffix; exact Hs2|auto]. }
+  destruct (e =? 85).
+  { destruct (read_hex 8 0 s2) as [[v' t']|] eqn:E; [|discriminate].
+    destruct (valid_cp v') eqn:Ev; [|discriminate]. inversion H; subst.
+    destruct (read_hex_suffix _ _ _ _ _ E) as [pre ->]. split; [eapply valid_suffix; exact Hs2|auto]. }
+  destruct (octdig e) as [d0|].
+  { destruct s2 as [|c1 [|c2 t']]; try discriminate.
+    destruct (octdig c1) as [d1|]; [|discriminate]. destruct (octdig c2) as [d2|]; [|discriminate].
+    destruct (255 <? (d0 * 8 + d1) * 8 + d2); [discriminate|]. inversion H; subst.
+    split; [inversion Hs2 as [|? ? ? Hx]; inversion Hx; assumption|].
+    intros Hv. rewrite orb_false_r in Hv. apply valid_small. lia. }
+  destruct (e =? 92); [inversion H; subst; split; [exact Hs2|intros _; reflexivity]|].
+  destruct (e =? 34); [inversion H; subst; split; [exact Hs2|intros _; reflexivity]|].
+  discriminate.
+Qed.
+
+Lemma unquote_loop_valid : forall fuel inp acc raw r, valid_codepoints inp -> valid_codepoints acc ->
+  unquote_loop fuel inp acc raw = UOk r -> valid_codepoints r.
+Proof.
+  induction fuel as [|f IH]; intros inp acc raw r Hi Ha H; [discriminate|].
+  cbn [unquote_loop] in H. destruct inp as [|c rest]; [discriminate|].
+  destruct (c =? 34).
+  { destruct rest; [|discriminate]. destruct raw; [discriminate|]. inversion H; subst.
+    unfold valid_codepoints. apply Forall_rev. exact Ha. }
+  destruct (c =? 10); [discriminate|].
+  destruct (unquote_char (c :: rest)) as [v mb tail|] eqn:E; [|discriminate].
+  destruct (unquote_char_valid _ _ _ _ Hi E) as [Ht Hv].
+  destruct ((v <? 128) || mb) eqn:Eb.
+  - apply (IH _ _ _ _ Ht) in H; [exact H|]. constructor; [apply Hv; reflexivity|exact Ha].
+  - apply (IH _ _ _ _ Ht Ha) in H. exact H.
+Qed.
+
+Lemma unquote_valid s r : valid_codepoints s -> unquote s = UOk r -> valid_codepoints r.
+Proof.
+  intros Hs H. unfold unquote in H. destruct s as [|q [|c rest]]; try discriminate.
+  destruct (q =? 34).
+  - inversion Hs as [|? ? _ Hr]; subst. eapply unquote_loop_valid; [exact Hr|constructor|exact H].
+  - destruct ((q =? 39) || (q =? 96)); discriminate.
+Qed.
